@@ -1,5 +1,6 @@
 """C18 - the MATLAB runtime header converts values without loss (Engine X: clang AST)."""
 from .. import rules_header as RH
+from .. import rules_header2 as RH2
 
 ID = "C18"
 EXPLANATION = (
@@ -38,6 +39,11 @@ def run(ctx, rep):
     rep.run(RH.rule_error_terminal, ctx, rep, "K6")
     rep.run(RH.rule_handle_protocol, ctx, rep, "K7")
     rep.run(RH.rule_returns_depend_on_argument, ctx, rep, "K8")
+    rep.run(RH2.rule_loop_headers, ctx, rep, "K9")
+    rep.run(RH2.rule_guard_truth_tables, ctx, rep, "K10")
+    rep.run(RH2.rule_creation_calls, ctx, rep, "K11")
+    rep.run(RH2.rule_matlab_calls, ctx, rep, "K12")
+    rep.run(RH2.rule_primary_templates_raise, ctx, rep, "K13")
 
 
 def run_thorough(ctx, rep):
